@@ -123,7 +123,7 @@ PROPS = {
                 "fresh BanFile, reconnect from the address); oracle: created account bitmap (memory via admin get-user, file, fresh "
                 "manager, 354 at its login) is a subset of the creator's over all 64 bits, and requested-subset => created exactly; "
                 "non-trivial = requested not a subset of creator (create) / a protected target hit with a ban option (kick); "
-                "distinct = hash(creator, requested, path) / hash(targets); in a third of the cases the creator's privileges (reduced) and the targets' protection bit (set or cleared) come from an administrator's set-user made while the account is logged in twice, and the request comes from / is aimed at the later session; TestC06LoginWindow: a disconnect request (every ban option) handled at the instant the protected user's connection enters the registry during its login (harness-owned schedule point, 1.2.3 and 1.5 flow); TestC06RenameForm: a creator that may create but not modify accounts makes an account without privileges and then sends the rename form of update-user (an entry naming an existing and a new login) with generated privileges: no login holding a privilege the creator lacks may exist afterwards in memory or on disk; TestC06LoginWindow also handles the disconnect request while the protected user hangs up (before-delete schedule point); TestC06GraceWindow: an unprotected user is kicked (any option) and hangs up by itself within the grace second, a protected user logs in 0-999 ms later: it must stay connected, listed, served and unbanned; TestC06TwoCreators: 10-40 rounds in which two creators with incomparable privileges ask for the same new login at the same instant (either creation request): the account holds no privilege that a creator who was told created lacks, in memory and in its file",
+                "distinct = hash(creator, requested, path) / hash(targets); in a third of the cases the creator's privileges (reduced) and the targets' protection bit (set or cleared) come from an administrator's set-user made while the account is logged in twice, and the request comes from / is aimed at the later session; TestC06LoginWindow: a disconnect request (every ban option) handled at the instant the protected user's connection enters the registry during its login (harness-owned schedule point, 1.2.3 and 1.5 flow); TestC06RenameForm: a creator that may create but not modify accounts makes an account without privileges and then sends the rename form of update-user (an entry naming an existing and a new login) with generated privileges: no login holding a privilege the creator lacks may exist afterwards in memory or on disk; TestC06LoginWindow also handles the disconnect request while the protected user hangs up (before-delete schedule point); TestC06GraceWindow: an unprotected user is kicked (any option) and hangs up by itself within the grace second, a protected user logs in 0-999 ms later: it must stay connected, listed, served and unbanned; TestC06TwoCreators: 10-40 rounds in which two creators with incomparable privileges ask for the same new login at the same instant (either creation request): the account holds no privilege that a creator who was told created lacks, in memory and in its file; TestC06Bystander: a protected user connected from the same address as an unprotected user who is kicked (any option) is still connected and served 2 s .. 6 min later, with the production idle loop running",
         "assumptions": ["creator bitmaps are what an account file can hold (40 defined privileges)"],
         "quick": {"runs": [{"test": "^TestC06Create$", "shards": 8, "checks": 400, "timeout": 600},
                            {"test": "^TestC06ExtraBit$", "shards": 4, "timeout": 600},
@@ -131,14 +131,16 @@ PROPS = {
                            {"test": "^TestC06LoginWindow$", "shards": 1, "checks": 60, "timeout": 600},
                            {"test": "^TestC06RenameForm$", "shards": 1, "checks": 150, "timeout": 600},
                            {"test": "^TestC06GraceWindow$", "shards": 1, "checks": 100, "timeout": 600},
-                           {"test": "^TestC06TwoCreators$", "shards": 2, "checks": 25, "timeout": 600}]},
+                           {"test": "^TestC06TwoCreators$", "shards": 2, "checks": 25, "timeout": 600},
+                           {"test": "^TestC06Bystander$", "shards": 1, "checks": 60, "timeout": 600}]},
         "thorough": {"runs": [{"test": "^TestC06Create$", "shards": 10, "checks": 20000, "timeout": 3400},
                               {"test": "^TestC06ExtraBit$", "shards": 2, "timeout": 1200},
                               {"test": "^TestC06Kick$", "shards": 4, "checks": 5000, "timeout": 3400},
                               {"test": "^TestC06LoginWindow$", "shards": 1, "checks": 3000, "timeout": 3400},
                               {"test": "^TestC06RenameForm$", "shards": 2, "checks": 8000, "timeout": 3400},
                               {"test": "^TestC06GraceWindow$", "shards": 1, "checks": 5000, "timeout": 3400},
-                              {"test": "^TestC06TwoCreators$", "shards": 2, "checks": 1500, "timeout": 3400}]},
+                              {"test": "^TestC06TwoCreators$", "shards": 2, "checks": 1500, "timeout": 3400},
+                              {"test": "^TestC06Bystander$", "shards": 1, "checks": 3000, "timeout": 3400}]},
     },
     "C07": {
         "title": "All filesystem effects stay inside the file root / config dir",
